@@ -118,13 +118,38 @@ theorem argument_head {ts : List Tok} {a : ANode} {rest : List Tok} (h : argumen
       obtain ⟨g1, _, g3⟩ := expect_ok heq
       exact ⟨t, e, r1, by rw [h1, g1], h3, g3⟩
 
-/-- non-vacuity: the head of `A = B(X = 1)` and of the EEMS 2.0 form `B(X = 1)` -/
+/-- **every argument of an accepted argument list is followed by `,` or `)`**: whatever `argument` consumed, the parser goes on only if the next
+token is a comma or the closing parenthesis - two arguments in a row without a comma, or anything else after a value, is rejected -/
+theorem argument_followed_by_separator (fuel : Nat) (ts : List Tok) (acc : List ANode) (as : List ANode) (rest : List Tok)
+    (h : arguments.go fuel ts acc = .ok (as, rest)) :
+    ∃ a r, argument ts = .ok (a, r) ∧ ∃ t r', r = t :: r' ∧ t.isErr = false ∧ (t.kind = .comma ∨ t.kind = .rparen) := by
+  cases fuel with
+  | zero => simp [arguments.go] at h
+  | succ fuel =>
+    rw [arguments.go] at h
+    split at h
+    · cases h
+    · rename_i a r ha
+      refine ⟨a, r, ha, ?_⟩
+      split at h
+      · cases h
+      · rename_i hpk
+        obtain ⟨t, r', hr, he, hk⟩ := peek_some hpk
+        exact ⟨t, r', hr, he, .inl hk⟩
+      · rename_i hpk
+        obtain ⟨t, r', hr, he, hk⟩ := peek_some hpk
+        exact ⟨t, r', hr, he, .inr hk⟩
+      · cases h
+
+/-- non-vacuity: the head of `A = B(X = 1)` and of the EEMS 2.0 form `B(X = 1)`; `A = B(X = "a", Y = 2)` is accepted, without the comma it is a syntax error -/
 example :
     let i (s : String) : Tok := ⟨.id, .str s, 1⟩
     let p (k : TokKind) : Tok := ⟨k, .none, 1⟩
     CommandHead [i "A", p .equal, i "B", p .lparen, i "X", p .equal, ⟨.int, .int 1, 1⟩, p .rparen] ∧
     CommandHead [i "B", p .lparen, i "X", p .equal, ⟨.int, .int 1, 1⟩, p .rparen] ∧
-    isAccepted (parseToks [i "B", p .lparen, i "X", p .equal, ⟨.int, .int 1, 1⟩, p .rparen]) = true := by
-  refine ⟨⟨_, _, rfl, rfl, rfl, .inl ⟨_, _, _, _, rfl, rfl, rfl, rfl⟩⟩, ⟨_, _, rfl, rfl, rfl, .inr ⟨_, _, rfl, rfl⟩⟩, by decide +kernel⟩
+    isAccepted (parseToks [i "B", p .lparen, i "X", p .equal, ⟨.int, .int 1, 1⟩, p .rparen]) = true ∧
+    isAccepted (parseToks [i "A", p .equal, i "B", p .lparen, i "X", p .equal, ⟨.string, .str "a", 1⟩, p .comma, i "Y", p .equal, ⟨.int, .int 2, 1⟩, p .rparen]) = true ∧
+    isSyntaxError (parseToks [i "A", p .equal, i "B", p .lparen, i "X", p .equal, ⟨.string, .str "a", 1⟩, i "Y", p .equal, ⟨.int, .int 2, 1⟩, p .rparen]) = true := by
+  refine ⟨⟨_, _, rfl, rfl, rfl, .inl ⟨_, _, _, _, rfl, rfl, rfl, rfl⟩⟩, ⟨_, _, rfl, rfl, rfl, .inr ⟨_, _, rfl, rfl⟩⟩, by decide +kernel, by decide +kernel, by decide +kernel⟩
 
 end MPilot.C10R
